@@ -770,7 +770,7 @@ func (r *runner) life(ri int, run Run, fresh bool) error {
 	}
 	deadline := time.After(90 * time.Second)
 	t0 := time.Now()
-	const idleAfter = 6 * time.Second // armed once the session is up: nothing happens any more
+	const idleAfter = 8 * time.Second // armed once the session is up: nothing happens any more
 	idle := time.NewTimer(80 * time.Second)
 	defer idle.Stop()
 	point := k.Kind
@@ -808,7 +808,12 @@ func (r *runner) life(ri int, run Run, fresh bool) error {
 			kill(0)
 			return machErr{fmt.Sprintf("run %d (%s/%s#%d): no kill point within 90 s; stderr=%s", ri, run.Mode, k.Kind, k.N, tail(p.stderr.String()))}
 		case <-idle.C:
-			// nothing happens any more and the kill point was not reached: kill here
+			// nothing happens any more and the kill point was not reached: kill here (a leeching life whose
+			// trigger cannot occur, e.g. nothing left to download); a restarted life must settle
+			if run.Mode != "leech" {
+				kill(0)
+				return machErr{fmt.Sprintf("run %d (%s/%s#%d): silent for %v before its kill point; stderr=%s", ri, run.Mode, k.Kind, k.N, idleAfter, tail(p.stderr.String()))}
+			}
 			point = "idle:" + k.Kind
 			kill(0)
 			done = true
@@ -870,11 +875,15 @@ func (r *runner) life(ri int, run Run, fresh bool) error {
 				if run.Mode == "leech" {
 					addr := fmt.Sprintf("127.0.0.1:%d", num(e, "port"))
 					go func() {
-						s, err := vh.ConnectSeeder(r.T, "seed", "127.0.0.2", addr, r.g.tor, &vh.SeederPolicy{})
-						if err == nil {
-							seedMu.Lock()
-							seeder = s
-							seedMu.Unlock()
+						for try := 0; try < 3; try++ {
+							s, err := vh.ConnectSeeder(r.T, "seed", "127.0.0.2", addr, r.g.tor, &vh.SeederPolicy{})
+							if err == nil {
+								seedMu.Lock()
+								seeder = s
+								seedMu.Unlock()
+								return
+							}
+							time.Sleep(200 * time.Millisecond)
 						}
 					}()
 					if k.Kind == "time" {
